@@ -37,8 +37,9 @@ BindV(n, v) == [n |-> n, v |-> v]
 \* The standard environment.  ob / oba have the same structural type in two field
 \* orders; os is a list whose elements are laid out in their own (mixed) orders --
 \* all of it reachable from host data, all of it conforming.
+EnvIds == <<"E1", "E1a", "E1b", "E1c", "E1d">>
 StdEnvIn(id) ==
-  CASE id = "E1" -> <<
+  CASE id \in {"E1", "E1a", "E1b", "E1c", "E1d"} -> <<
       BindV(N_n, VNum(NInt(3))), BindV(N_p, VNum(Half(5))), BindV(N_z, VNum(Zero)), BindV(N_q, VNum(NInt(-1))),
       BindV(N_s, VStr(<<97, 98>>)), BindV(N_u, VStr(<<233, 26195>>)), BindV(N_w, VStr(<<>>)),
       BindV(N_b, VBool(TRUE)), BindV(N_c, VBool(FALSE)),
@@ -51,13 +52,30 @@ StdEnvIn(id) ==
       BindV(N_ob, IObj(TOab, <<VNum(NInt(1)), VStr(<<120>>)>>)),
       BindV(N_oba, IObj(TOba, <<VStr(<<121>>), VNum(NInt(2))>>)),
       BindV(N_os, IList(TList(TOab), <<IObj(TOab, <<VNum(NInt(1)), VStr(<<120>>)>>), IObj(TOba, <<VStr(<<121>>), VNum(NInt(2))>>)>>)),
-      BindV(N_mx, VNothing(TNum)), BindV(N_mj, VJust(TNum, VNum(NInt(7)))),
+      BindV(N_oc, IObj(TObj(<<Fld(N_a, TNum)>>), <<VNum(NInt(5))>>)),
+      BindV(N_od, IObj(TObj(<<Fld(N_a, TNum), Fld(N_b, TStr), Fld(N_c, TBool)>>), <<VNum(NInt(1)), VStr(<<120>>), VBool(TRUE)>>)),
+      BindV(N_mx, VNothing(TNum)), BindV(N_mj, VJust(TNum, VNum(NInt(7)))), BindV(N_ms, VJust(TStr, VStr(<<113>>))),
+      BindV(N_lo, IList(TList(TMaybe(TNum)), <<VJust(TNum, VNum(NInt(1))), VNothing(TNum)>>)),
+      BindV(N_oo, IObj(TObj(<<Fld(N_a, TMaybe(TNum)), Fld(N_b, TStr)>>), <<VNothing(TNum), VStr(<<120>>)>>)),
       BindV(N_fs, IList(TList(TIncTy), <<VFunV(TIncTy, "U_INC")>>))
     >>
     [] OTHER -> <<>>
 
-StdPre(id) == CASE id = "E1" -> <<"U_T", "U_ID", "U_PICK", "U_H", "U_F", "U_LIF", "U_TWICE", "U_NEVER", "U_SECOND">>
+\* user functions registered before the first compilation (they precede the built-ins) and
+\* after it; the E1a..E1d variants register three overloads of g in different orders:
+\*    g :: a -> num (=1)   g :: list[a] -> str (="L")   g :: num -> num (=3, monomorphic)
+BasePre == <<"U_T", "U_ID", "U_PICK", "U_H", "U_F", "U_LIF", "U_TWICE", "U_NEVER", "U_SECOND">>
+StdPre(id) == CASE id = "E1" -> BasePre
+                [] id = "E1a" -> BasePre \o <<"U_GPOLY", "U_GLIST", "U_GNUM">>
+                [] id = "E1b" -> BasePre \o <<"U_GLIST", "U_GPOLY">>
+                [] id = "E1c" -> BasePre \o <<"U_GNUM", "U_GLIST">>
+                [] id = "E1d" -> BasePre
                 [] OTHER -> <<>>
+StdPost(id) == CASE id = "E1c" -> <<"U_GPOLY">>
+                 [] id = "E1d" -> <<"U_GLIST", "U_GPOLY", "U_GNUM">>
+                 [] OTHER -> <<>>
+\* a universe element is a tree (standard environment E1) or a tree with its environment id
+InEnvId(e, id) == [e |-> e, envid |-> id]
 
 (* Universes are SEQUENCES of trees, never sets: TLC normalises sets by comparing
    their elements, and trees of different kinds are not comparable (a number
@@ -73,10 +91,10 @@ Map1(L, Mk(_)) == [i \in 1..Len(L) |-> Mk(L[i])]
 VarLeaves(names) == [i \in 1..Len(names) |-> EId(names[i])]
 LitLeaves == <<EInt(0), EInt(1), EInt(2), ENum(Half(1)), EStr(<<97>>), EStr(<<>>), EBool(TRUE), EBool(FALSE),
                EList(<<>>), EMap(<<>>)>>
-LeavesSmall == VarLeaves(<<N_n, N_p, N_s, N_b, N_tm, N_xs, N_m, N_ob, N_oba, N_os, N_mx, N_mj>>)
+LeavesSmall == VarLeaves(<<N_n, N_p, N_s, N_b, N_tm, N_xs, N_m, N_ob, N_oba, N_oc, N_os, N_mx, N_mj>>)
                  \o <<EInt(1), EStr(<<97>>), EList(<<>>)>>
 LeavesFull == VarLeaves(<<N_n, N_p, N_z, N_q, N_s, N_u, N_w, N_b, N_c, N_tm, N_d, N_xs, N_ys, N_ss, N_m, N_mm,
-                          N_ob, N_oba, N_os, N_mx, N_mj, N_fs>>) \o LitLeaves
+                          N_ob, N_oba, N_oc, N_od, N_os, N_mx, N_mj, N_ms, N_lo, N_oo, N_fs>>) \o LitLeaves
 
 \* vocabularies by arity (names, not overloads: the checker resolves them)
 Names1 == <<N_plus, N_minus, N_bang, N_abs, N_ceil, N_floor, N_round, N_len, N_max, N_min, N_string, N_print,
